@@ -100,10 +100,11 @@ theorem closingScaled_eq (ns np ls lp thetaS phiS : ℝ) (pp : Poling ℝ) (ke :
     tsin, tcos, hk, Vec3.mk.injEq]
   refine ⟨?_, ?_, ?_⟩ <;> field_simp <;> ring
 
-/-- **momentum conservation**: forward signal (`0 ≤ θ_s < π/2`), no counter-propagation, closing
-vector `c` pointing forward (`c_z ≥ 0`, `c ≠ 0`): the idler's direction is exactly `c/‖c‖` -/
+/-- **momentum conservation**: forward signal of either sign (`|θ_s| < π/2`), no
+counter-propagation, closing vector `c` pointing forward (`c_z ≥ 0`, `c ≠ 0`): the idler's direction
+is exactly `c/‖c‖` -/
 theorem idler_parallel_closing (i : IdlerIn ℝ) (o : IdlerOut ℝ) (h : optimumIdler i = .ok o)
-    (hcp : i.cp = false) (h0 : 0 ≤ i.thetaS) (h1 : i.thetaS < π / 2) (hns : 0 ≤ i.ns)
+    (hcp : i.cp = false) (h0 : -(π / 2) < i.thetaS) (h1 : i.thetaS < π / 2)
     (hz : 0 ≤ (closingScaled i.ns i.np i.ls i.lp i.thetaS i.phiS i.pp).z)
     (hc : 0 < (closingScaled i.ns i.np i.ls i.lp i.thetaS i.phiS i.pp).normSq) :
     o.dir = Vec3.smul (1 / Real.sqrt (closingScaled i.ns i.np i.ls i.lp i.thetaS i.phiS i.pp).normSq)
@@ -114,24 +115,23 @@ theorem idler_parallel_closing (i : IdlerIn ℝ) (o : IdlerOut ℝ) (h : optimum
   set N := Real.sqrt c.normSq with hN
   have hNpos : 0 < N := Real.sqrt_pos.mpr hc
   have hNsq : N ^ 2 = c.normSq := Real.sq_sqrt hc.le
-  have hsin : 0 ≤ Real.sin i.thetaS :=
-    Real.sin_nonneg_of_nonneg_of_le_pi h0 (by linarith [Real.pi_pos])
-  have hnum : 0 ≤ i.ns * Real.sin i.thetaS := mul_nonneg hns hsin
+  have hpi := Real.pi_pos
   -- ‖c‖² = (n_s sin θ_s)² + c_z²
   have hcn : c.normSq = (i.ns * Real.sin i.thetaS) ^ 2 + c.z ^ 2 := by
     have h2 := Real.sin_sq_add_cos_sq i.phiS
     simp only [hcdef, closingScaled, Vec3.normSq, Vec3.dot, tsin, tcos]
     linear_combination (i.ns ^ 2 * Real.sin i.thetaS ^ 2) * h2
-  have hle : i.ns * Real.sin i.thetaS ≤ N := by
-    rw [hN]; apply Real.le_sqrt_of_sq_le; rw [hcn]; nlinarith [sq_nonneg c.z]
+  have habs : |i.ns * Real.sin i.thetaS| ≤ N := by
+    rw [hN]; apply Real.abs_le_sqrt; rw [hcn]; nlinarith [sq_nonneg c.z]
   set v := i.ns * Real.sin i.thetaS / N with hv
-  have hv0 : 0 ≤ v := div_nonneg hnum hNpos.le
-  have hv1 : v ≤ 1 := (div_le_one hNpos).mpr hle
+  have hv0 : -1 ≤ v := by
+    rw [hv, le_div_iff₀ hNpos]; linarith [(abs_le.mp habs).1]
+  have hv1 : v ≤ 1 := (div_le_one hNpos).mpr (abs_le.mp habs).2
   have hth : idlerThetaRaw i = Real.arcsin v := by
     rw [idlerThetaRaw_forward hcp h0 h1, harg]
-  have hth0 : 0 ≤ Real.arcsin v := Real.arcsin_nonneg.mpr hv0
-  have hth1 : Real.arcsin v ≤ π := (Real.arcsin_le_pi_div_two v).trans (by linarith [Real.pi_pos])
-  have hsinI : Real.sin (Real.arcsin v) = v := Real.sin_arcsin (by linarith) hv1
+  have hth0 : -π < Real.arcsin v := by linarith [Real.neg_pi_div_two_le_arcsin v]
+  have hth1 : Real.arcsin v ≤ π := (Real.arcsin_le_pi_div_two v).trans (by linarith)
+  have hsinI : Real.sin (Real.arcsin v) = v := Real.sin_arcsin hv0 hv1
   have hcosI : Real.cos (Real.arcsin v) = c.z / N := by
     rw [Real.cos_arcsin]
     have : 1 - v ^ 2 = (c.z / N) ^ 2 := by
@@ -141,7 +141,7 @@ theorem idler_parallel_closing (i : IdlerIn ℝ) (o : IdlerOut ℝ) (h : optimum
     rw [cos_normalizeAngle, cos_normalizeAngle, Real.cos_add_pi]
   have hsinP : Real.sin (normalizeAngle (normalizeAngle (i.phiS + π))) = -Real.sin i.phiS := by
     rw [sin_normalizeAngle, sin_normalizeAngle, Real.sin_add_pi]
-  simp only [IdlerOut.dir, dirFromPolar_eq, hth, normalizeAngleSigned_of_mem hth0 hth1, hsinI,
+  simp only [IdlerOut.dir, dirFromPolar_eq, hth, normalizeAngleSigned_of_mem' hth0 hth1, hsinI,
     hcosI, hcosP, hsinP, Vec3.smul, Vec3.mk.injEq]
   refine ⟨?_, ?_, ?_⟩
   · simp only [hcdef, closingScaled, tsin, tcos, hv]; ring
@@ -154,7 +154,7 @@ theorem idler_collinear (i : IdlerIn ℝ) (o : IdlerOut ℝ) (h : optimumIdler i
     o.theta = 0 ∧ o.dir = ⟨0, 0, 1⟩ := by
   obtain ⟨-, rfl⟩ := optimumIdler_ok h
   have hraw : idlerThetaRaw i = 0 := by
-    rw [idlerThetaRaw_forward hcp (by rw [hth]) (by rw [hth]; positivity), hth]
+    rw [idlerThetaRaw_forward hcp (by rw [hth]; linarith [Real.pi_pos]) (by rw [hth]; positivity), hth]
     simp
   have h0 : normalizeAngleSigned (idlerThetaRaw i) = 0 := by
     rw [hraw]; exact normalizeAngleSigned_of_mem le_rfl Real.pi_pos.le
@@ -164,7 +164,7 @@ theorem idler_collinear (i : IdlerIn ℝ) (o : IdlerOut ℝ) (h : optimumIdler i
 /-- the residual mismatch is parallel to the idler: with the idler along `c/‖c‖`,
 `Δk = (‖kp − ks − kΛ ẑ‖ − n_i ω_i / c) · dir_i` -/
 theorem deltaK_parallel_idler (i : IdlerIn ℝ) (o : IdlerOut ℝ) (h : optimumIdler i = .ok o)
-    (hcp : i.cp = false) (h0 : 0 ≤ i.thetaS) (h1 : i.thetaS < π / 2) (hns : 0 ≤ i.ns)
+    (hcp : i.cp = false) (h0 : -(π / 2) < i.thetaS) (h1 : i.thetaS < π / 2)
     (hlp : 0 < i.lp)
     (hz : 0 ≤ (closingScaled i.ns i.np i.ls i.lp i.thetaS i.phiS i.pp).z)
     (hc : 0 < (closingScaled i.ns i.np i.ls i.lp i.thetaS i.phiS i.pp).normSq)
@@ -176,7 +176,7 @@ theorem deltaK_parallel_idler (i : IdlerIn ℝ) (o : IdlerOut ℝ) (h : optimumI
           - ni * wi / c0) o.dir) := by
   have hlt := (optimumIdler_ok h).1
   have hls : i.ls ≠ 0 := (hlp.trans hlt).ne'
-  have hpar := idler_parallel_closing i o h hcp h0 h1 hns hz hc
+  have hpar := idler_parallel_closing i o h hcp h0 h1 hz hc
   have hcl := closingScaled_eq i.ns i.np i.ls i.lp i.thetaS i.phiS i.pp ke hls hlp.ne' hke
   set c := closingScaled i.ns i.np i.ls i.lp i.thetaS i.phiS i.pp with hcdef
   set N := Real.sqrt c.normSq with hN
@@ -216,23 +216,24 @@ theorem idler_err_iff (i : IdlerIn ℝ) :
 /-! ## non-vacuity -/
 
 /-- a concrete non-collinear, poled configuration satisfying the hypotheses of
-`idler_parallel_closing` (BBO-like indices, 775 → 1550 nm, θ_s = 0.1, φ_s = 1, Λ = −20 µm) -/
-example : ∃ i : IdlerIn ℝ, i.cp = false ∧ 0 ≤ i.thetaS ∧ i.thetaS < π / 2 ∧ 0 ≤ i.ns ∧ i.lp < i.ls ∧
-    0 < i.thetaS ∧ (∃ ke, kEff i.pp = .ok ke) ∧
+`idler_parallel_closing` (BBO-like indices, 775 → 1550 nm, θ_s = −0.1, φ_s = 1, Λ = −20 µm) -/
+example : ∃ i : IdlerIn ℝ, i.cp = false ∧ -(π / 2) < i.thetaS ∧ i.thetaS < π / 2 ∧ i.lp < i.ls ∧
+    i.thetaS < 0 ∧ (∃ ke, kEff i.pp = .ok ke) ∧
     0 ≤ (closingScaled i.ns i.np i.ls i.lp i.thetaS i.phiS i.pp).z ∧
     0 < (closingScaled i.ns i.np i.ls i.lp i.thetaS i.phiS i.pp).normSq := by
-  have hz : (0 : ℝ) < (closingScaled (1.6 : ℝ) 1.65 1550e-9 775e-9 0.1 1 (.on 20e-6 true)).z := by
-    have hcos := Real.cos_le_one (0.1 : ℝ)
+  have hz : (0 : ℝ) < (closingScaled (1.6 : ℝ) 1.65 1550e-9 775e-9 (-0.1) 1 (.on 20e-6 true)).z := by
+    have hcos := Real.cos_le_one (1 / 10 : ℝ)
     simp only [closingScaled, kpp, signMul_eq, tcos]
     norm_num
     linarith
-  refine ⟨⟨.t2_e_eo, false, 1550e-9, 775e-9, 1.6, 1.65, 0.1, 1, .on 20e-6 true, 1e-4, 1e-4⟩,
-    rfl, by norm_num, ?_, by norm_num, by norm_num, by norm_num, ?_, hz.le, ?_⟩
+  refine ⟨⟨.t2_e_eo, false, 1550e-9, 775e-9, 1.6, 1.65, -0.1, 1, .on 20e-6 true, 1e-4, 1e-4⟩,
+    rfl, ?_, ?_, by norm_num, by norm_num, ?_, hz.le, ?_⟩
+  · have := Real.one_le_pi_div_two; norm_num; linarith
   · have := Real.one_le_pi_div_two; norm_num; linarith
   · exact ⟨_, DeltaK.kEff_on true (by norm_num)⟩
   · simp only [Vec3.normSq, Vec3.dot]
-    nlinarith [mul_self_nonneg (closingScaled (1.6 : ℝ) 1.65 1550e-9 775e-9 0.1 1 (.on 20e-6 true)).x,
-      mul_self_nonneg (closingScaled (1.6 : ℝ) 1.65 1550e-9 775e-9 0.1 1 (.on 20e-6 true)).y,
+    nlinarith [mul_self_nonneg (closingScaled (1.6 : ℝ) 1.65 1550e-9 775e-9 (-0.1) 1 (.on 20e-6 true)).x,
+      mul_self_nonneg (closingScaled (1.6 : ℝ) 1.65 1550e-9 775e-9 (-0.1) 1 (.on 20e-6 true)).y,
       mul_pos hz hz]
 
 end Spdc.Props.C03
